@@ -204,12 +204,14 @@ Definition zrange (n : Z) : list Z := map Z.of_nat (seq 0 (Z.to_nat n)).
 (* the order in which the driver prints the runs (cxx/repro_driver.cpp run_case) *)
 Definition plan_events (p : plan) (m : Z) (comp : bool) : list ev :=
   let f_noise := Z.odd (pl_flags p) in
+  let f_tfirst := Z.odd (pl_flags p / 16) in
   let nz j := if f_noise then noise_ev m j else [] in
-  [EMain 0]
-  ++ flat_map (fun r => EMain 1 :: nz r) (zrange (pl_R p))
-  ++ flat_map (fun f => EMain 2 :: nz (pl_R p + f)) (zrange (pl_F p))
-  ++ (if comp then [EComp 1] ++ nz 0 ++ [EComp 1] ++ nz 1 ++ [EComp 2] else [])
-  ++ map (thread_ev m comp) (zrange (pl_T p)).
+  let sequential :=
+    flat_map (fun r => EMain 1 :: nz r) (zrange (pl_R p))
+    ++ flat_map (fun f => EMain 2 :: nz (pl_R p + f)) (zrange (pl_F p))
+    ++ (if comp then [EComp 1] ++ nz 0 ++ [EComp 1] ++ nz 1 ++ [EComp 2] else []) in
+  let threads := map (thread_ev m comp) (zrange (pl_T p)) in
+  [EMain 0] ++ (if f_tfirst then threads ++ sequential else sequential ++ threads).
 
 (* headers: 40 rep phase / 41 idx occurrence / 42 rep phase, numbered in print order *)
 Fixpoint render (evs : list ev) (rep nz crep : Z) (main comp : wire) (noise : list wire) : wire :=
